@@ -24,6 +24,9 @@ enum Row {
     /// storage, storage provisioned again: the label memories are out of step through no fault of either
     /// side, so delivery is not demanded, only that nothing is delivered under another label
     AfterRejectedForStorage,
+    /// re-use enabled with at most `max` consecutive re-use labels, then THIS label sent 1 + `sent` times (all fed
+    /// to the receiver): the counter is below, at, or (for sent > max) once past the limit
+    AfterSameWithMax { max: u8, sent: u8 },
 }
 
 struct Case<'a> {
@@ -60,6 +63,19 @@ fn run_case(rep: &Report, acc: &mut Acc, c: &Case) {
             if c.row == Row::AfterSameOff {
                 enc.disable_re_use_label();
                 steps.push("disable_re_use_label".into());
+            }
+        }
+        Row::AfterSameWithMax { max, sent } => {
+            enc.enable_re_use_label_with_max_consecutive(max);
+            steps.push(format!("enable_re_use_label_with_max_consecutive({})", max));
+            for k in 0..=sent {
+                let mut scratch = [0u8; 32];
+                let o = do_encap(&mut enc, &[0x42 + k], 0, 0x0800, c.l, &mut scratch);
+                let n = o.len().unwrap_or(0);
+                if let DecapOut::Completed { buf, .. } = do_decap(&mut rx, &scratch[..n]) {
+                    let _ = rx.provision_storage(buf.into_boxed_slice());
+                }
+                steps.push(format!("encap(1-byte pdu, label {}) -> {:?}; decap", c.l.short(), o));
             }
         }
         Row::AfterInterleavedTrain => {
@@ -134,7 +150,7 @@ fn run_case(rep: &Report, acc: &mut Acc, c: &Case) {
     let lw_full = c.l.wire_len();
     let fits_full = 2 + lw_full + c.p <= GSE_LEN_MAX && c.b >= 4 + lw_full + c.p;
     let fits_empty = 2 + c.p <= GSE_LEN_MAX && c.b >= 4 + c.p;
-    let may_sub = (c.row == Row::AfterSame || c.row == Row::AfterInterleavedTrain || c.row == Row::AfterRejectedForStorage) && c.l.is_addr();
+    let may_sub = (matches!(c.row, Row::AfterSameWithMax { .. }) || c.row == Row::AfterSame || c.row == Row::AfterInterleavedTrain || c.row == Row::AfterRejectedForStorage) && c.l.is_addr();
     let rank = (c.p * 100_000 + c.b) as u64;
     let wit = || {
         json!({"prefix": steps, "call":"encap","pdu_len":c.p,"content":c.content_desc,"frag_id":0x33,"pt":c.pt,"label":c.l.short(),"buffer_len":c.b,"row":format!("{:?}",c.row),"storage":c.storage,"result":format!("{:?}",out)})
@@ -191,7 +207,12 @@ fn run_case(rep: &Report, acc: &mut Acc, c: &Case) {
                 }
             }
         }
-        EncOut::Panic(_) => {} // C09
+        EncOut::Panic(p) => {
+            // totality as such is C09's; here only the demand "must report a completed packet whenever it fits"
+            if fits_full {
+                rep.violation(&format!("C01|fits-but-not-complete|PANIC|{}", reg), rank, || (format!("encap(pdu_len={}, pt={:#06x}, label={}, buffer={}) must report a completed packet (GSE length {} <= 4095, packet {} <= buffer) but panics at {}", c.p, c.pt, c.l.short(), c.b, 2 + lw_full + c.p, 4 + lw_full + c.p, p), wit()));
+            }
+        }
         other => {
             // label as written: known from the LT bits when a packet was produced (empty after a substitution)
             let fits_as_written = match other {
@@ -213,7 +234,7 @@ fn run_case(rep: &Report, acc: &mut Acc, c: &Case) {
 
 pub fn run(tier: Tier) -> i32 {
     let rep = Report::new("C01", tier);
-    rep.set_rule("lattice: label kind x row (re-use on/off, after the same label with re-use on/off, after another label followed by failed encap_ext/encap calls with this label, after a complete packet with this label interleaved inside another PDU's fragment train) x PDU length (every length 0..=4100) x buffer length relative to the exact packet size and beyond 4097 x protocol type x storage size >= PDU x content pattern, all contents for lengths 0..=2 (0..=1 in quick); each cell = real encap + real decap of exactly the reported bytes; distinct = (status, label kind, row, regime)");
+    rep.set_rule("lattice: label kind x row (re-use on/off, after the same label with re-use on/off, after another label followed by failed encap_ext/encap calls with this label, after a complete packet with this label interleaved inside another PDU's fragment train, after 1 + k packets with this label under a limit of m consecutive re-use labels for (m,k) in {(1,1),(2,1),(2,2),(1,2)}) x PDU length (every length 0..=4100) x buffer length relative to the exact packet size and beyond 4097 x protocol type x storage size >= PDU x content pattern, all contents for lengths 0..=2 (0..=1 in quick); each cell = real encap + real decap of exactly the reported bytes; distinct = (status, label kind, row, regime)");
     rep.assume("payload contents beyond 2 bytes are represented by four patterns (position tag, zeros, ones, second tag)");
     let labels = [L6A, L3A, Lbl::Bcast, L6B, L3B, L3Z];
     let ps: Vec<usize> = (0..=4100).collect();
@@ -225,7 +246,7 @@ pub fn run(tier: Tier) -> i32 {
             return;
         }
         let mut acc = Acc::default();
-        let rows: Vec<Row> = if l.is_addr() { vec![Row::Plain(true), Row::Plain(false), Row::AfterSame, Row::AfterSameOff, Row::AfterOtherThenFailed, Row::AfterInterleavedTrain, Row::AfterRejectedForStorage] } else { vec![Row::Plain(true), Row::Plain(false)] };
+        let rows: Vec<Row> = if l.is_addr() { vec![Row::Plain(true), Row::Plain(false), Row::AfterSame, Row::AfterSameOff, Row::AfterOtherThenFailed, Row::AfterInterleavedTrain, Row::AfterRejectedForStorage, Row::AfterSameWithMax { max: 1, sent: 1 }, Row::AfterSameWithMax { max: 2, sent: 1 }, Row::AfterSameWithMax { max: 2, sent: 2 }, Row::AfterSameWithMax { max: 1, sent: 2 }] } else { vec![Row::Plain(true), Row::Plain(false)] };
         for (ri, &row) in rows.iter().enumerate() {
             for lw in [l.wire_len(), 0] {
                 let size = 4 + lw + p;
